@@ -1,259 +1,1387 @@
-// go2lean: a deliberately tiny Go -> Lean 4 translator for straight-line int64/bool functions.
+// go2lean: a deliberately small Go -> Lean 4 translator for PURE functions and constants.
 //
-// usage: go2lean <repo root> <spec>...   where spec = <file>:<func>[:<leanName>]
-// (func may be "Type.method"; a struct receiver's fields become leading parameters recv_field)
+// usage: go2lean -out <dir> <repo root> @<Area> <spec>... [@<Area2> <spec>...]
+//   spec = <file>:<func>[:<leanName>]     function; func may be "Type.method"
+//        | <file>:=<CONST>[:<leanName>]   package-level constant of the file's package
+// One file <dir>/<Area>.lean is written per area.  A spec that cannot be translated is reported
+// on stderr (`go2lean: <spec>: <reason>`), its definition is OMITTED from the output (so the
+// theorem about it stops building and names it) and the exit status is 1; the other specs are
+// still translated.
+//
+// The package of each file is parsed (non-test files, linux/amd64 build constraints) and
+// type-checked with go/types.  Imports of "os", "syscall", "math", "io/fs", "strings", "path" are
+// resolved by the standard library's source importer (offline, GOROOT sources); every other
+// import is replaced by an empty stub package and the resulting type errors are ignored - but
+// every expression the translator touches must have a valid type, else it is an error.
 //
 // Supported subset (anything else is an error, never a guess):
-//   parameters of type int64; result int64 or bool;
-//   body = { if <cond> { return <expr> } }* return <expr>
-//   expr = identifiers, integer literals, math.MaxInt64 / math.MinInt64, receiver.field,
-//          unary -, !, binary + - * / % < <= > >= == != && ||, parentheses.
-// Semantics emitted: Lean `Int` (unbounded!) with Go's truncated division (`Int.tdiv`,
-// `Int.tmod`); int64 overflow is NOT modelled - theorems using the output state that side
-// condition where it matters.
+//   types      : int, int8..int64 -> Lean `Int` (unbounded: overflow NOT modelled, stated as a side
+//                condition by the theorems where it matters); uint, uint8..uint64, uintptr and
+//                named types over them (os.FileMode) -> Lean `Nat` (value assumed < 2^w; + * << and
+//                unary ^ are reduced mod 2^w, - is modular, so the result is exact for inputs
+//                < 2^w); bool -> `Bool`; string -> `String`; a struct of such fields -> fields
+//                become parameters; []T of such -> `List`.
+//   constants  : every expression go/types evaluates to a constant (named constants of the
+//                package, os.ModeDir, syscall.S_IFDIR, math.MaxInt64, `4 << 20`, "a" + "b") is
+//                emitted as its VALUE.
+//   statements : x := e, var x T = e, var x T, x = e, x op= e, x++/x--, return e..., bare return
+//                with named results, if / else if / else (with init), switch with and without
+//                tag (multiple case values, default anywhere, no fallthrough),
+//                `for _, x := range xs { ... }` without return/break/continue (-> List.foldl).
+//   expressions: identifiers, literals, param.field(.field) reads, unary - ! ^,
+//                + - * / % & | ^ &^ << >> (shift count constant), comparisons, && ||,
+//                string + == !=, len(string), conversions between integer kinds of the same
+//                signedness, strings.HasPrefix/HasSuffix, calls of functions translated in the same area.
+// Names: parameters x0,x1,..; locals v0,v1,.. (declaration order); so renaming anything in the
+// Go source changes nothing in the output.  Output is deterministic.
 package main
 
 import (
 	"fmt"
 	"go/ast"
+	"go/build"
+	"go/constant"
+	"go/importer"
 	"go/parser"
 	"go/token"
+	"go/types"
 	"os"
 	"path/filepath"
+	"sort"
 	"strings"
 )
 
-type tr struct {
-	recv   string
-	fields map[string]bool
-	isBool map[string]bool
-	ren    map[string]string
+type trErr struct{ msg string }
+
+func die(f string, a ...any) { panic(trErr{fmt.Sprintf(f, a...)}) }
+
+// ---------------------------------------------------------------- packages
+
+type pkgInfo struct {
+	fset  *token.FileSet
+	files map[string]*ast.File // by base name
+	info  *types.Info
+	pkg   *types.Package
 }
 
-// lname gives the Lean name of a Go parameter: positional (x0, x1, ...), so that renaming a
-// parameter in the Go source (even to a Lean keyword) changes nothing in the generated file.
-func (t *tr) lname(goName string) string {
-	if n, ok := t.ren[goName]; ok {
-		return n
+var stdReal = map[string]bool{"os": true, "syscall": true, "math": true, "io/fs": true, "strings": true, "path": true}
+
+type imp struct {
+	src  types.Importer
+	fake map[string]*types.Package
+}
+
+func (i *imp) Import(path string) (*types.Package, error) {
+	if stdReal[path] {
+		if p, err := i.src.Import(path); err == nil {
+			return p, nil
+		} else {
+			fmt.Fprintf(os.Stderr, "go2lean: note: source importer failed for %s: %v\n", path, err)
+		}
 	}
-	die("unknown identifier %s (only parameters and receiver fields are supported)", goName)
+	if p, ok := i.fake[path]; ok {
+		return p, nil
+	}
+	name := path[strings.LastIndex(path, "/")+1:]
+	if strings.HasPrefix(name, "v") && len(name) <= 3 && strings.Count(path, "/") > 0 { // .../v2
+		pp := strings.TrimSuffix(path, "/"+name)
+		name = pp[strings.LastIndex(pp, "/")+1:]
+	}
+	name = strings.ReplaceAll(strings.TrimPrefix(name, "go-"), "-", "_")
+	p := types.NewPackage(path, name)
+	p.MarkComplete()
+	i.fake[path] = p
+	return p, nil
+}
+
+var pkgCache = map[string]*pkgInfo{}
+var theImporter *imp
+
+func loadPkg(dir string) *pkgInfo {
+	if p, ok := pkgCache[dir]; ok {
+		return p
+	}
+	fset := token.NewFileSet()
+	if theImporter == nil {
+		build.Default.CgoEnabled = false
+		build.Default.GOOS, build.Default.GOARCH = "linux", "amd64"
+		theImporter = &imp{src: importer.ForCompiler(token.NewFileSet(), "source", nil), fake: map[string]*types.Package{}}
+	}
+	ents, err := os.ReadDir(dir)
+	if err != nil {
+		die("%v", err)
+	}
+	ctx := build.Default
+	p := &pkgInfo{fset: fset, files: map[string]*ast.File{}}
+	var files []*ast.File
+	for _, e := range ents {
+		n := e.Name()
+		if !strings.HasSuffix(n, ".go") || strings.HasSuffix(n, "_test.go") {
+			continue
+		}
+		if ok, _ := ctx.MatchFile(dir, n); !ok {
+			continue
+		}
+		f, err := parser.ParseFile(fset, filepath.Join(dir, n), nil, 0)
+		if err != nil {
+			die("%v", err)
+		}
+		if len(files) > 0 && f.Name.Name != files[0].Name.Name {
+			continue
+		}
+		p.files[n] = f
+		files = append(files, f)
+	}
+	if len(files) == 0 {
+		die("no Go files in %s", dir)
+	}
+	p.info = &types.Info{Types: map[ast.Expr]types.TypeAndValue{}, Defs: map[*ast.Ident]types.Object{}, Uses: map[*ast.Ident]types.Object{}}
+	conf := types.Config{Importer: theImporter, Error: func(error) {}, FakeImportC: true}
+	p.pkg, _ = conf.Check(files[0].Name.Name, fset, files, p.info)
+	pkgCache[dir] = p
+	return p
+}
+
+// ---------------------------------------------------------------- Lean types
+
+type kind struct {
+	k     string // "Int" "Nat" "Bool" "String" "Struct" "List"
+	w     uint   // width for Nat
+	elem  *kind
+	names []string // struct field names
+	flds  []*kind
+}
+
+func (k *kind) lean() string {
+	switch k.k {
+	case "Struct":
+		var s []string
+		for _, f := range k.flds {
+			s = append(s, f.lean())
+		}
+		return "(" + strings.Join(s, " × ") + ")"
+	case "List":
+		return "(List " + k.elem.lean() + ")"
+	}
+	return k.k
+}
+
+func (k *kind) zero() string {
+	switch k.k {
+	case "Int", "Nat":
+		return "(0 : " + k.k + ")"
+	case "Bool":
+		return "false"
+	case "String":
+		return "\"\""
+	}
+	die("no zero value for %s", k.lean())
 	return ""
 }
 
-func die(f string, a ...any) { fmt.Fprintf(os.Stderr, "go2lean: "+f+"\n", a...); os.Exit(1) }
+func kindOf(t types.Type) *kind {
+	if t == nil {
+		die("expression without a valid type (outside the type-checked subset)")
+	}
+	switch u := t.Underlying().(type) {
+	case *types.Basic:
+		switch u.Kind() {
+		case types.Int, types.Int8, types.Int16, types.Int32, types.Int64, types.UntypedInt, types.UntypedRune:
+			return &kind{k: "Int"}
+		case types.Uint8:
+			return &kind{k: "Nat", w: 8}
+		case types.Uint16:
+			return &kind{k: "Nat", w: 16}
+		case types.Uint32:
+			return &kind{k: "Nat", w: 32}
+		case types.Uint, types.Uint64, types.Uintptr:
+			return &kind{k: "Nat", w: 64}
+		case types.Bool, types.UntypedBool:
+			return &kind{k: "Bool"}
+		case types.String, types.UntypedString:
+			return &kind{k: "String"}
+		}
+	case *types.Struct:
+		k := &kind{k: "Struct"}
+		for i := 0; i < u.NumFields(); i++ {
+			fk := kindOf(u.Field(i).Type())
+			if fk.k == "Struct" || fk.k == "List" {
+				die("nested struct field %s", u.Field(i).Name())
+			}
+			k.names = append(k.names, u.Field(i).Name())
+			k.flds = append(k.flds, fk)
+		}
+		if len(k.flds) < 2 {
+			die("struct with fewer than two fields")
+		}
+		return k
+	case *types.Slice:
+		return &kind{k: "List", elem: kindOf(u.Elem())}
+	case *types.Pointer:
+		die("pointer type %s", t)
+	}
+	die("unsupported type %s", t)
+	return nil
+}
 
-func (t *tr) expr(e ast.Expr) (string, bool) { // (lean, isBool)
+func simpleStruct(t types.Type) (k *kind, ok bool) {
+	defer func() {
+		if r := recover(); r != nil {
+			if _, is := r.(trErr); !is {
+				panic(r)
+			}
+			k, ok = nil, false
+		}
+	}()
+	if p, isp := t.Underlying().(*types.Pointer); isp {
+		t = p.Elem()
+	}
+	if _, is := t.Underlying().(*types.Struct); !is {
+		return nil, false
+	}
+	return kindOf(t), true
+}
+
+func leanString(s string) string {
+	var b strings.Builder
+	b.WriteByte('"')
+	for _, r := range s {
+		switch {
+		case r == '"':
+			b.WriteString("\\\"")
+		case r == '\\':
+			b.WriteString("\\\\")
+		case r == '\n':
+			b.WriteString("\\n")
+		case r == '\t':
+			b.WriteString("\\t")
+		case r < 0x20 || r == 0x7f:
+			fmt.Fprintf(&b, "\\x%02x", r)
+		default:
+			b.WriteRune(r)
+		}
+	}
+	b.WriteByte('"')
+	return b.String()
+}
+
+func leanChar(r rune) string {
+	switch {
+	case r == '\'':
+		return "'\\''"
+	case r == '\\':
+		return "'\\\\'"
+	case r == '\n':
+		return "'\\n'"
+	case r == '\t':
+		return "'\\t'"
+	case r < 0x20 || r == 0x7f:
+		return fmt.Sprintf("'\\x%02x'", r)
+	}
+	return "'" + string(r) + "'"
+}
+
+func constLean(v constant.Value, k *kind) string {
+	switch k.k {
+	case "Int", "Nat":
+		iv := constant.ToInt(v)
+		if iv.Kind() != constant.Int {
+			die("non-integer constant %s", v)
+		}
+		if k.k == "Nat" && constant.Sign(iv) < 0 {
+			die("negative unsigned constant")
+		}
+		return "(" + iv.ExactString() + " : " + k.k + ")"
+	case "Bool":
+		if constant.BoolVal(v) {
+			return "true"
+		}
+		return "false"
+	case "String":
+		return leanString(constant.StringVal(v))
+	}
+	die("constant of kind %s", k.k)
+	return ""
+}
+
+// ---------------------------------------------------------------- function translation
+
+type tr struct {
+	p       *pkgInfo
+	names   map[types.Object]string // parameters / locals
+	kinds   map[types.Object]*kind
+	paths   map[string]string // "obj.field.field" reads of non-simple struct params -> Lean name
+	pathOrd []string
+	pathK   map[string]*kind
+	results []types.Object // named results (nil entries if unnamed)
+	resK    []*kind
+	funcs   map[string]string // Go function name (same package dir) -> Lean name, same area
+	nparam  int
+	nlocal  int
+	ntmp    int
+	dir     string
+}
+
+func (t *tr) typeOf(e ast.Expr) types.Type {
+	tv, ok := t.p.info.Types[e]
+	if !ok || tv.Type == nil || tv.Type == types.Typ[types.Invalid] {
+		die("expression at %s has no valid type (uses something outside the type-checked subset)", t.p.fset.Position(e.Pos()))
+	}
+	return tv.Type
+}
+
+func (t *tr) obj(id *ast.Ident) types.Object {
+	if o := t.p.info.Defs[id]; o != nil {
+		return o
+	}
+	if o := t.p.info.Uses[id]; o != nil {
+		return o
+	}
+	die("unresolved identifier %s", id.Name)
+	return nil
+}
+
+func (t *tr) declLocal(o types.Object) string {
+	if n, ok := t.names[o]; ok {
+		return n
+	}
+	n := fmt.Sprintf("v%d", t.nlocal)
+	t.nlocal++
+	t.names[o] = n
+	t.kinds[o] = kindOf(o.Type())
+	return n
+}
+
+// selector path rooted at a parameter: returns root object and field names
+func (t *tr) selPath(e ast.Expr) (types.Object, []string, bool) {
+	switch x := e.(type) {
+	case *ast.Ident:
+		o := t.p.info.Uses[x]
+		if o == nil {
+			return nil, nil, false
+		}
+		if _, isVar := o.(*types.Var); !isVar {
+			return nil, nil, false
+		}
+		return o, nil, true
+	case *ast.SelectorExpr:
+		o, p, ok := t.selPath(x.X)
+		if !ok {
+			return nil, nil, false
+		}
+		return o, append(p, x.Sel.Name), true
+	case *ast.ParenExpr:
+		return t.selPath(x.X)
+	case *ast.StarExpr:
+		return t.selPath(x.X)
+	}
+	return nil, nil, false
+}
+
+func (t *tr) expr(e ast.Expr) string {
+	if tv, ok := t.p.info.Types[e]; ok && tv.Value != nil && tv.Type != nil {
+		if _, isParen := e.(*ast.ParenExpr); !isParen {
+			return constLean(tv.Value, kindOf(tv.Type))
+		}
+	}
 	switch x := e.(type) {
 	case *ast.ParenExpr:
-		s, b := t.expr(x.X)
-		return "(" + s + ")", b
+		return "(" + t.expr(x.X) + ")"
 	case *ast.Ident:
 		if x.Name == "true" || x.Name == "false" {
-			return x.Name, true
+			return x.Name
 		}
-		return t.lname(x.Name), t.isBool[x.Name]
-	case *ast.BasicLit:
-		if x.Kind != token.INT {
-			die("unsupported literal %s", x.Value)
+		o := t.obj(x)
+		if n, ok := t.names[o]; ok {
+			if t.kinds[o].k == "Struct" && !strings.HasPrefix(n, "v") && !strings.HasPrefix(n, "e") {
+				die("struct parameter %s used as a whole value", x.Name)
+			}
+			return n
 		}
-		return "(" + x.Value + " : Int)", false
+		die("identifier %s is neither a parameter, a local nor a constant", x.Name)
 	case *ast.SelectorExpr:
-		if id, ok := x.X.(*ast.Ident); ok {
-			if id.Name == "math" && x.Sel.Name == "MaxInt64" {
-				return "(9223372036854775807 : Int)", false
-			}
-			if id.Name == "math" && x.Sel.Name == "MinInt64" {
-				return "(-9223372036854775808 : Int)", false
-			}
-			if id.Name == t.recv {
-				return t.lname(t.recv + "_" + x.Sel.Name), false
+		o, path, ok := t.selPath(x)
+		if !ok {
+			die("unsupported selector at %s", t.p.fset.Position(x.Pos()))
+		}
+		if n, isLocal := t.names[o]; isLocal && !strings.HasPrefix(n, "x?") && t.kinds[o].k == "Struct" && len(path) == 1 { // struct-valued local / loop var
+			k := t.kinds[o]
+			for i, fn := range k.names {
+				if fn == path[0] {
+					return proj(n, i, len(k.names))
+				}
 			}
 		}
-		die("unsupported selector")
+		key := fmt.Sprintf("%p", o) + "." + strings.Join(path, ".")
+		if n, ok := t.paths[key]; ok {
+			return n
+		}
+		die("field read %s is not rooted at a parameter", strings.Join(path, "."))
 	case *ast.UnaryExpr:
-		s, b := t.expr(x.X)
+		k := kindOf(t.typeOf(e))
+		s := t.expr(x.X)
 		switch x.Op {
 		case token.SUB:
-			return "(- " + s + ")", false
-		case token.NOT:
-			if !b {
-				die("! on non-bool")
+			if k.k != "Int" {
+				die("unary - on %s", k.k)
 			}
-			return "(!" + s + ")", true
+			return "(- " + s + ")"
+		case token.ADD:
+			return s
+		case token.NOT:
+			return "(!" + s + ")"
+		case token.XOR:
+			if k.k != "Nat" {
+				die("unary ^ on signed integer")
+			}
+			return fmt.Sprintf("(%s - %s)", maxU(k.w), s)
 		}
 		die("unsupported unary %s", x.Op)
 	case *ast.BinaryExpr:
-		l, lb := t.expr(x.X)
-		r, rb := t.expr(x.Y)
-		switch x.Op {
-		case token.ADD, token.SUB, token.MUL:
-			return fmt.Sprintf("(%s %s %s)", l, x.Op, r), false
-		case token.QUO:
-			return fmt.Sprintf("(Int.tdiv %s %s)", l, r), false
-		case token.REM:
-			return fmt.Sprintf("(Int.tmod %s %s)", l, r), false
-		case token.LSS, token.LEQ, token.GTR, token.GEQ:
-			op := map[token.Token]string{token.LSS: "<", token.LEQ: "≤", token.GTR: ">", token.GEQ: "≥"}[x.Op]
-			return fmt.Sprintf("(decide (%s %s %s))", l, op, r), true
-		case token.EQL, token.NEQ:
-			if lb != rb {
-				die("==/!= on mixed types")
-			}
-			op := "=="
-			if x.Op == token.NEQ {
-				op = "!="
-			}
-			return fmt.Sprintf("(%s %s %s)", l, op, r), true
-		case token.LAND, token.LOR:
-			if !lb || !rb {
-				die("&&/|| on non-bool")
-			}
-			op := "&&"
-			if x.Op == token.LOR {
-				op = "||"
-			}
-			return fmt.Sprintf("(%s %s %s)", l, op, r), true
+		return t.binary(x.Op, x.X, x.Y, kindOf(t.typeOf(e)))
+	case *ast.CallExpr:
+		return t.call(x)
+	case *ast.IndexExpr:
+		// xs[c] with a constant index; an out-of-range index (a Go panic) is NOT modelled: the
+		// translation yields `default`, theorems state the length hypothesis.
+		tv := t.p.info.Types[x.Index]
+		lk := kindOf(t.typeOf(x.X))
+		if tv.Value == nil || lk.k != "List" {
+			die("indexing is supported only as slice[constant]")
 		}
-		die("unsupported binary %s", x.Op)
+		n, exact := constant.Uint64Val(constant.ToInt(tv.Value))
+		if !exact {
+			die("bad index")
+		}
+		return fmt.Sprintf("(List.getD %s %d default)", t.expr(x.X), n)
 	}
-	die("unsupported expression %T", e)
-	return "", false
-}
-
-func (t *tr) body(stmts []ast.Stmt, resBool bool) string {
-	if len(stmts) == 0 {
-		die("function falls off the end")
-	}
-	switch s := stmts[0].(type) {
-	case *ast.ReturnStmt:
-		if len(s.Results) != 1 {
-			die("need exactly one result")
-		}
-		e, b := t.expr(s.Results[0])
-		if b != resBool {
-			die("result type mismatch")
-		}
-		return e
-	case *ast.IfStmt:
-		if s.Init != nil || s.Else != nil {
-			die("unsupported if form")
-		}
-		c, b := t.expr(s.Cond)
-		if !b {
-			die("non-bool condition")
-		}
-		th := t.body(s.Body.List, resBool)
-		el := t.body(stmts[1:], resBool)
-		return fmt.Sprintf("(if %s = true then %s else %s)", c, th, el)
-	}
-	die("unsupported statement %T", stmts[0])
+	die("unsupported expression %T at %s", e, t.p.fset.Position(e.Pos()))
 	return ""
 }
 
+func maxU(w uint) string { return fmt.Sprintf("(2 ^ %d - 1 : Nat)", w) }
+
+func proj(n string, i, cnt int) string {
+	s := n
+	for j := 0; j < i; j++ {
+		s += ".2"
+	}
+	if i < cnt-1 {
+		s += ".1"
+	}
+	return s
+}
+
+func (t *tr) binary(op token.Token, X, Y ast.Expr, rk *kind) string {
+	ok := kindOf(t.typeOf(X)) // operand kind
+	l := t.expr(X)
+	switch op {
+	case token.SHL, token.SHR:
+		tv := t.p.info.Types[Y]
+		if tv.Value == nil {
+			die("shift by a non-constant")
+		}
+		n, exact := constant.Uint64Val(constant.ToInt(tv.Value))
+		if !exact || n > 63 {
+			die("bad shift count")
+		}
+		if ok.k != "Nat" {
+			die("shift of a signed non-constant")
+		}
+		if op == token.SHR {
+			return fmt.Sprintf("(%s >>> %d)", l, n)
+		}
+		return fmt.Sprintf("((%s <<< %d) %% 2 ^ %d)", l, n, ok.w)
+	}
+	r := t.expr(Y)
+	switch op {
+	case token.ADD:
+		if ok.k == "String" {
+			return fmt.Sprintf("(%s ++ %s)", l, r)
+		}
+		if ok.k == "Nat" {
+			return fmt.Sprintf("((%s + %s) %% 2 ^ %d)", l, r, ok.w)
+		}
+		return fmt.Sprintf("(%s + %s)", l, r)
+	case token.SUB:
+		if ok.k == "Nat" {
+			return fmt.Sprintf("((%s + 2 ^ %d - %s) %% 2 ^ %d)", l, ok.w, r, ok.w)
+		}
+		return fmt.Sprintf("(%s - %s)", l, r)
+	case token.MUL:
+		if ok.k == "Nat" {
+			return fmt.Sprintf("((%s * %s) %% 2 ^ %d)", l, r, ok.w)
+		}
+		return fmt.Sprintf("(%s * %s)", l, r)
+	case token.QUO:
+		if ok.k == "Nat" {
+			return fmt.Sprintf("(%s / %s)", l, r)
+		}
+		return fmt.Sprintf("(Int.tdiv %s %s)", l, r)
+	case token.REM:
+		if ok.k == "Nat" {
+			return fmt.Sprintf("(%s %% %s)", l, r)
+		}
+		return fmt.Sprintf("(Int.tmod %s %s)", l, r)
+	case token.AND, token.OR, token.XOR, token.AND_NOT:
+		if ok.k != "Nat" {
+			die("bit operation %s on a signed non-constant", op)
+		}
+		switch op {
+		case token.AND:
+			return fmt.Sprintf("(%s &&& %s)", l, r)
+		case token.OR:
+			return fmt.Sprintf("(%s ||| %s)", l, r)
+		case token.XOR:
+			return fmt.Sprintf("(%s ^^^ %s)", l, r)
+		}
+		return fmt.Sprintf("(%s - (%s &&& %s))", l, l, r)
+	case token.LSS, token.LEQ, token.GTR, token.GEQ:
+		if ok.k != "Int" && ok.k != "Nat" {
+			die("ordering on %s", ok.k)
+		}
+		o := map[token.Token]string{token.LSS: "<", token.LEQ: "≤", token.GTR: ">", token.GEQ: "≥"}[op]
+		return fmt.Sprintf("(decide (%s %s %s))", l, o, r)
+	case token.EQL, token.NEQ:
+		if ok.k == "Struct" || ok.k == "List" {
+			die("==/!= on %s", ok.k)
+		}
+		o := "=="
+		if op == token.NEQ {
+			o = "!="
+		}
+		return fmt.Sprintf("(%s %s %s)", l, o, r)
+	case token.LAND:
+		return fmt.Sprintf("(%s && %s)", l, r)
+	case token.LOR:
+		return fmt.Sprintf("(%s || %s)", l, r)
+	}
+	die("unsupported binary %s", op)
+	return ""
+}
+
+func (t *tr) call(c *ast.CallExpr) string {
+	// conversion?
+	if tv, ok := t.p.info.Types[c.Fun]; ok && tv.IsType() {
+		if len(c.Args) != 1 {
+			die("bad conversion")
+		}
+		to, from := kindOf(tv.Type), kindOf(t.typeOf(c.Args[0]))
+		a := t.expr(c.Args[0])
+		switch {
+		case to.k == "Int" && from.k == "Int":
+			return a // overflow of signed narrowing NOT modelled
+		case to.k == "Nat" && from.k == "Nat":
+			if to.w >= from.w {
+				return a
+			}
+			return fmt.Sprintf("(%s %% 2 ^ %d)", a, to.w)
+		case to.k == from.k && (to.k == "String" || to.k == "Bool"):
+			return a
+		}
+		die("conversion %s -> %s is outside the subset", from.lean(), to.lean())
+	}
+	switch f := c.Fun.(type) {
+	case *ast.Ident:
+		if f.Name == "len" && len(c.Args) == 1 {
+			if _, isBuiltin := t.p.info.Uses[f].(*types.Builtin); isBuiltin {
+				k := kindOf(t.typeOf(c.Args[0]))
+				if k.k == "String" {
+					return "(" + t.expr(c.Args[0]) + ".utf8ByteSize : Int)"
+				}
+				if k.k == "List" {
+					return "(" + t.expr(c.Args[0]) + ".length : Int)"
+				}
+			}
+		}
+		if ln, ok := t.funcs[t.dir+":"+f.Name]; ok {
+			var a []string
+			for _, x := range c.Args {
+				a = append(a, t.expr(x))
+			}
+			return "(" + ln + " " + strings.Join(a, " ") + ")"
+		}
+		die("call of %s (not translated in this area)", f.Name)
+	case *ast.SelectorExpr:
+		if id, ok := f.X.(*ast.Ident); ok {
+			// method of a struct-valued local / loop variable, translated in the same area
+			if o := t.p.info.Uses[id]; o != nil && len(c.Args) == 0 {
+				if n, isLocal := t.names[o]; isLocal && !strings.HasPrefix(n, "x?") && t.kinds[o].k == "Struct" {
+					if nt, isNamed := deref(o.Type()).(*types.Named); isNamed {
+						if ln, ok := t.funcs[t.dir+":"+nt.Obj().Name()+"."+f.Sel.Name]; ok {
+							var a []string
+							for i := range t.kinds[o].names {
+								a = append(a, proj(n, i, len(t.kinds[o].names)))
+							}
+							return "(" + ln + " " + strings.Join(a, " ") + ")"
+						}
+					}
+				}
+			}
+			if pn, ok := t.p.info.Uses[id].(*types.PkgName); ok && pn.Imported().Path() == "strings" && len(c.Args) == 2 {
+				a, b := t.expr(c.Args[0]), t.expr(c.Args[1])
+				switch f.Sel.Name {
+				case "HasPrefix":
+					return fmt.Sprintf("(String.isPrefixOf %s %s)", b, a)
+				case "HasSuffix":
+					return fmt.Sprintf("(String.endsWith %s %s)", a, b)
+				}
+			}
+		}
+	}
+	die("unsupported call at %s", t.p.fset.Position(c.Pos()))
+	return ""
+}
+
+// ---- statements
+
+func terminates(ss []ast.Stmt) bool {
+	if len(ss) == 0 {
+		return false
+	}
+	switch s := ss[len(ss)-1].(type) {
+	case *ast.ReturnStmt:
+		return true
+	case *ast.BlockStmt:
+		return terminates(s.List)
+	case *ast.IfStmt:
+		if s.Else == nil {
+			return false
+		}
+		return terminates(s.Body.List) && terminates([]ast.Stmt{s.Else})
+	case *ast.SwitchStmt:
+		hasDef := false
+		for _, c := range s.Body.List {
+			cc := c.(*ast.CaseClause)
+			if cc.List == nil {
+				hasDef = true
+			}
+			if !terminates(cc.Body) {
+				return false
+			}
+		}
+		return hasDef
+	}
+	return false
+}
+
+func hasReturn(ss []ast.Stmt) bool {
+	found := false
+	for _, s := range ss {
+		ast.Inspect(s, func(n ast.Node) bool {
+			switch n.(type) {
+			case *ast.ReturnStmt:
+				found = true
+			case *ast.FuncLit:
+				return false
+			}
+			return true
+		})
+	}
+	return found
+}
+
+// objects assigned (not declared) inside ss that were declared outside ss, in Lean-name order
+func (t *tr) assigned(lists ...[]ast.Stmt) []types.Object {
+	declared := map[types.Object]bool{}
+	set := map[types.Object]bool{}
+	mark := func(e ast.Expr) {
+		for {
+			switch x := e.(type) {
+			case *ast.ParenExpr:
+				e = x.X
+				continue
+			case *ast.SelectorExpr:
+				e = x.X
+				continue
+			}
+			break
+		}
+		if id, ok := e.(*ast.Ident); ok {
+			if o := t.p.info.Uses[id]; o != nil && !declared[o] {
+				set[o] = true
+			}
+		}
+	}
+	for _, ss := range lists {
+		for _, s := range ss {
+			ast.Inspect(s, func(n ast.Node) bool {
+				switch x := n.(type) {
+				case *ast.Ident:
+					if o := t.p.info.Defs[x]; o != nil {
+						declared[o] = true
+					}
+				case *ast.AssignStmt:
+					for _, l := range x.Lhs {
+						if id, ok := l.(*ast.Ident); ok && t.p.info.Defs[id] != nil {
+							declared[t.p.info.Defs[id]] = true
+							continue
+						}
+						mark(l)
+					}
+				case *ast.IncDecStmt:
+					mark(x.X)
+				}
+				return true
+			})
+		}
+	}
+	var os_ []types.Object
+	for o := range set {
+		if _, ok := t.names[o]; !ok {
+			die("assignment to %s which is not a local", o.Name())
+		}
+		os_ = append(os_, o)
+	}
+	sort.Slice(os_, func(i, j int) bool { return nameLess(t.names[os_[i]], t.names[os_[j]]) })
+	return os_
+}
+
+func nameLess(a, b string) bool {
+	if a[0] != b[0] {
+		return a[0] < b[0]
+	}
+	if len(a) != len(b) {
+		return len(a) < len(b)
+	}
+	return a < b
+}
+
+func (t *tr) tuple(os_ []types.Object) (string, string) { // (value, type)
+	var v, ty []string
+	for _, o := range os_ {
+		v = append(v, t.names[o])
+		ty = append(ty, t.kinds[o].lean())
+	}
+	if len(v) == 1 {
+		return v[0], ty[0]
+	}
+	return "(" + strings.Join(v, ", ") + ")", "(" + strings.Join(ty, " × ") + ")"
+}
+
+// bind the components of a joined value back to the variables
+func (t *tr) bindJoin(os_ []types.Object, val string, rest string) string {
+	if len(os_) == 1 {
+		return fmt.Sprintf("(let %s : %s := %s; %s)", t.names[os_[0]], t.kinds[os_[0]].lean(), val, rest)
+	}
+	_, ty := t.tuple(os_)
+	j := fmt.Sprintf("j%d", t.ntmp)
+	t.ntmp++
+	s := fmt.Sprintf("(let %s : %s := %s; ", j, ty, val)
+	for i, o := range os_ {
+		s += fmt.Sprintf("let %s : %s := %s; ", t.names[o], t.kinds[o].lean(), proj(j, i, len(os_)))
+	}
+	return s + rest + ")"
+}
+
+type clause struct {
+	cond string // "" = else
+	body []ast.Stmt
+}
+
+// body translates a statement list.  fin == "" : every path must end in a return;
+// fin != "" : no return allowed, the value of the list is fin (a tuple of variables).
+func (t *tr) body(ss []ast.Stmt, fin string) string {
+	if len(ss) == 0 {
+		if fin == "" {
+			die("function falls off the end (or a path without return)")
+		}
+		return fin
+	}
+	rest := ss[1:]
+	switch s := ss[0].(type) {
+	case *ast.BlockStmt:
+		return t.body(append(append([]ast.Stmt{}, s.List...), rest...), fin)
+	case *ast.EmptyStmt:
+		return t.body(rest, fin)
+	case *ast.ReturnStmt:
+		if fin != "" {
+			die("return inside a joined block")
+		}
+		var rs []string
+		if len(s.Results) == 0 {
+			for _, o := range t.results {
+				if o == nil {
+					die("bare return without named results")
+				}
+				rs = append(rs, t.names[o])
+			}
+		} else {
+			if len(s.Results) != len(t.resK) {
+				die("return of a multi-value call")
+			}
+			for _, r := range s.Results {
+				rs = append(rs, t.expr(r))
+			}
+		}
+		if len(rs) == 0 {
+			die("function without results")
+		}
+		if len(rs) == 1 {
+			return rs[0]
+		}
+		return "(" + strings.Join(rs, ", ") + ")"
+	case *ast.DeclStmt:
+		gd, ok := s.Decl.(*ast.GenDecl)
+		if !ok || gd.Tok != token.VAR {
+			die("unsupported declaration")
+		}
+		out, n := "", 0
+		for _, sp := range gd.Specs {
+			vs := sp.(*ast.ValueSpec)
+			if len(vs.Values) != 0 && len(vs.Values) != len(vs.Names) {
+				die("var with a multi-value initialiser")
+			}
+			for i, id := range vs.Names {
+				o := t.p.info.Defs[id]
+				k := kindOf(o.Type())
+				val := ""
+				if len(vs.Values) == 0 {
+					val = k.zero()
+				} else {
+					val = t.expr(vs.Values[i])
+				}
+				out += fmt.Sprintf("(let %s : %s := %s; ", t.declLocal(o), k.lean(), val)
+				n++
+			}
+		}
+		return out + t.body(rest, fin) + strings.Repeat(")", n)
+	case *ast.IncDecStmt:
+		id, ok := s.X.(*ast.Ident)
+		if !ok {
+			die("++/-- on a non-variable")
+		}
+		o := t.obj(id)
+		k := t.kinds[o]
+		if k == nil || k.k != "Int" {
+			die("++/-- on a non-int local")
+		}
+		op := "+"
+		if s.Tok == token.DEC {
+			op = "-"
+		}
+		return fmt.Sprintf("(let %s : Int := (%s %s (1 : Int)); %s)", t.names[o], t.names[o], op, t.body(rest, fin))
+	case *ast.AssignStmt:
+		if len(s.Lhs) != len(s.Rhs) {
+			die("multi-value assignment")
+		}
+		// evaluate all right-hand sides first (Go semantics), then bind
+		var vals []string
+		for i := range s.Rhs {
+			if s.Tok == token.ASSIGN || s.Tok == token.DEFINE {
+				vals = append(vals, t.expr(s.Rhs[i]))
+			} else {
+				bop := map[token.Token]token.Token{token.ADD_ASSIGN: token.ADD, token.SUB_ASSIGN: token.SUB, token.MUL_ASSIGN: token.MUL,
+					token.QUO_ASSIGN: token.QUO, token.REM_ASSIGN: token.REM, token.AND_ASSIGN: token.AND, token.OR_ASSIGN: token.OR,
+					token.XOR_ASSIGN: token.XOR, token.SHL_ASSIGN: token.SHL, token.SHR_ASSIGN: token.SHR, token.AND_NOT_ASSIGN: token.AND_NOT}[s.Tok]
+				if bop == 0 {
+					die("unsupported assignment operator %s", s.Tok)
+				}
+				vals = append(vals, t.binary(bop, s.Lhs[i], s.Rhs[i], nil))
+			}
+		}
+		if len(vals) > 1 {
+			die("parallel assignment is outside the subset")
+		}
+		lhs := s.Lhs[0]
+		switch l := lhs.(type) {
+		case *ast.Ident:
+			if l.Name == "_" {
+				return t.body(rest, fin)
+			}
+			o := t.obj(l)
+			var n string
+			if s.Tok == token.DEFINE && t.p.info.Defs[l] != nil {
+				n = t.declLocal(o)
+			} else {
+				var ok bool
+				if n, ok = t.names[o]; !ok || strings.HasPrefix(n, "x") && t.kinds[o].k == "Struct" {
+					die("assignment to %s", l.Name)
+				}
+			}
+			return fmt.Sprintf("(let %s : %s := %s; %s)", n, t.kinds[o].lean(), vals[0], t.body(rest, fin))
+		case *ast.SelectorExpr: // field of a struct-valued local
+			id, ok := l.X.(*ast.Ident)
+			if !ok {
+				die("assignment to a nested field")
+			}
+			o := t.obj(id)
+			k := t.kinds[o]
+			n, isLocal := t.names[o]
+			if !isLocal || k.k != "Struct" || !strings.HasPrefix(n, "v") {
+				die("field assignment to a non-local struct")
+			}
+			var comps []string
+			found := false
+			for i, fn := range k.names {
+				if fn == l.Sel.Name {
+					comps = append(comps, vals[0])
+					found = true
+				} else {
+					comps = append(comps, proj(n, i, len(k.names)))
+				}
+			}
+			if !found {
+				die("unknown field %s", l.Sel.Name)
+			}
+			return fmt.Sprintf("(let %s : %s := (%s); %s)", n, k.lean(), strings.Join(comps, ", "), t.body(rest, fin))
+		}
+		die("unsupported assignment target")
+	case *ast.IfStmt:
+		var pre []ast.Stmt
+		var cls []clause
+		cur := s
+		for {
+			if cur.Init != nil {
+				if cur != s {
+					die("else-if with an init statement")
+				}
+				pre = append(pre, cur.Init)
+			}
+			cls = append(cls, clause{cond: "?", body: cur.Body.List})
+			if cur.Else == nil {
+				break
+			}
+			if nx, ok := cur.Else.(*ast.IfStmt); ok {
+				cur = nx
+				continue
+			}
+			cls = append(cls, clause{cond: "", body: cur.Else.(*ast.BlockStmt).List})
+			break
+		}
+		if len(pre) > 0 {
+			s2 := *s
+			s2.Init = nil
+			return t.body(append([]ast.Stmt{pre[0], &s2}, rest...), fin)
+		}
+		// conditions are translated here (after a possible init has been bound)
+		cur, i := s, 0
+		for {
+			cls[i].cond = t.expr(cur.Cond)
+			i++
+			nx, ok := cur.Else.(*ast.IfStmt)
+			if !ok {
+				break
+			}
+			cur = nx
+		}
+		return t.chain(cls, rest, fin)
+	case *ast.SwitchStmt:
+		if s.Init != nil {
+			s2 := *s
+			s2.Init = nil
+			return t.body(append([]ast.Stmt{s.Init, &s2}, rest...), fin)
+		}
+		open, closeP := "", ""
+		tag := ""
+		if s.Tag != nil {
+			tag = fmt.Sprintf("sw%d", t.ntmp)
+			t.ntmp++
+			open = fmt.Sprintf("(let %s : %s := %s; ", tag, kindOf(t.typeOf(s.Tag)).lean(), t.expr(s.Tag))
+			closeP = ")"
+		}
+		var cls []clause
+		var def *clause
+		for _, c := range s.Body.List {
+			cc := c.(*ast.CaseClause)
+			for _, st := range cc.Body {
+				if b, ok := st.(*ast.BranchStmt); ok {
+					die("%s inside switch", b.Tok)
+				}
+			}
+			if cc.List == nil {
+				def = &clause{cond: "", body: cc.Body}
+				continue
+			}
+			var cs []string
+			for _, e := range cc.List {
+				if tag != "" {
+					cs = append(cs, fmt.Sprintf("(%s == %s)", tag, t.expr(e)))
+				} else {
+					cs = append(cs, t.expr(e))
+				}
+			}
+			c0 := cs[0]
+			for _, x := range cs[1:] {
+				c0 = fmt.Sprintf("(%s || %s)", c0, x)
+			}
+			cls = append(cls, clause{cond: c0, body: cc.Body})
+		}
+		if def != nil {
+			cls = append(cls, *def)
+		}
+		if len(cls) == 0 {
+			return t.body(rest, fin)
+		}
+		if cls[0].cond == "" { // only a default clause
+			return t.body(append(append([]ast.Stmt{}, cls[0].body...), rest...), fin)
+		}
+		return open + t.chain(cls, rest, fin) + closeP
+	case *ast.RangeStmt:
+		if s.Tok != token.DEFINE || s.Value == nil {
+			die("unsupported range form")
+		}
+		if k, ok := s.Key.(*ast.Ident); !ok || k.Name != "_" {
+			die("range with an index variable")
+		}
+		lk := kindOf(t.typeOf(s.X))
+		if lk.k != "List" {
+			die("range over a non-slice")
+		}
+		xs := t.expr(s.X)
+		bad := false
+		ast.Inspect(s.Body, func(n ast.Node) bool {
+			switch n.(type) {
+			case *ast.ReturnStmt, *ast.BranchStmt:
+				bad = true
+			}
+			return true
+		})
+		if bad {
+			die("return/break/continue inside a range loop")
+		}
+		vid := s.Value.(*ast.Ident)
+		vo := t.p.info.Defs[vid]
+		vn := fmt.Sprintf("e%d", t.ntmp)
+		t.ntmp++
+		t.names[vo] = vn
+		t.kinds[vo] = lk.elem
+		acc := t.assigned(s.Body.List)
+		if len(acc) == 0 {
+			die("range loop without effect")
+		}
+		av, aty := t.tuple(acc)
+		an := fmt.Sprintf("a%d", t.ntmp)
+		t.ntmp++
+		inner := t.body(s.Body.List, av)
+		fn := fmt.Sprintf("(fun (%s : %s) (%s : %s) => %s)", an, aty, vn, lk.elem.lean(), t.bindJoin(acc, an, inner))
+		return t.bindJoin(acc, fmt.Sprintf("(List.foldl %s %s %s)", fn, av, xs), t.body(rest, fin))
+	}
+	die("unsupported statement %T at %s", ss[0], t.p.fset.Position(ss[0].Pos()))
+	return ""
+}
+
+func (t *tr) chain(cls []clause, rest []ast.Stmt, fin string) string {
+	if cls[len(cls)-1].cond != "" {
+		cls = append(cls, clause{cond: "", body: nil})
+	}
+	noneRet := true
+	for _, c := range cls {
+		if hasReturn(c.body) {
+			noneRet = false
+		}
+	}
+	build := func(f func(c clause) string) string {
+		s := f(cls[len(cls)-1])
+		for i := len(cls) - 2; i >= 0; i-- {
+			s = fmt.Sprintf("(if %s = true then %s else %s)", cls[i].cond, f(cls[i]), s)
+		}
+		return s
+	}
+	if noneRet {
+		var lists [][]ast.Stmt
+		for _, c := range cls {
+			lists = append(lists, c.body)
+		}
+		acc := t.assigned(lists...)
+		if len(acc) == 0 {
+			die("if/switch without effect")
+		}
+		av, _ := t.tuple(acc)
+		val := build(func(c clause) string { return t.body(c.body, av) })
+		return t.bindJoin(acc, val, t.body(rest, fin))
+	}
+	if fin != "" {
+		die("return inside a joined block")
+	}
+	return build(func(c clause) string {
+		if terminates(c.body) {
+			return t.body(c.body, "")
+		}
+		return t.body(append(append([]ast.Stmt{}, c.body...), rest...), "")
+	})
+}
+
+// ---------------------------------------------------------------- driver
+
+type spec struct {
+	raw, file, name, lean string
+	isConst               bool
+}
+
 func typeName(e ast.Expr) string {
-	if id, ok := e.(*ast.Ident); ok {
-		return id.Name
+	switch x := e.(type) {
+	case *ast.Ident:
+		return x.Name
+	case *ast.StarExpr:
+		return typeName(x.X)
 	}
 	return "?"
 }
 
+func (t *tr) addParam(o types.Object, params *[]string) {
+	typ := o.Type()
+	if sk, ok := simpleStruct(typ); ok {
+		// struct of basic fields: every field, in declaration order
+		for i, fn := range sk.names {
+			n := fmt.Sprintf("x%d", t.nparam)
+			t.nparam++
+			t.paths[fmt.Sprintf("%p", o)+"."+fn] = n
+			*params = append(*params, fmt.Sprintf("(%s : %s)", n, sk.flds[i].lean()))
+		}
+		t.names[o] = "x?" + o.Name()
+		t.kinds[o] = sk
+		return
+	}
+	if _, isStruct := deref(typ).Underlying().(*types.Struct); isStruct {
+		t.names[o] = "x?" + o.Name()
+		t.kinds[o] = &kind{k: "Struct"}
+		return // fields are added on demand (scanPaths)
+	}
+	k := kindOf(typ)
+	n := fmt.Sprintf("x%d", t.nparam)
+	t.nparam++
+	t.names[o] = n
+	t.kinds[o] = k
+	*params = append(*params, fmt.Sprintf("(%s : %s)", n, k.lean()))
+}
+
+func deref(t types.Type) types.Type {
+	if p, ok := t.Underlying().(*types.Pointer); ok {
+		return p.Elem()
+	}
+	return t
+}
+
+// field reads rooted at struct parameters that are not "simple": one parameter per distinct
+// path, in order of first appearance
+func (t *tr) scanPaths(body *ast.BlockStmt, roots map[types.Object]bool, params *[]string) {
+	ast.Inspect(body, func(n ast.Node) bool {
+		se, ok := n.(*ast.SelectorExpr)
+		if !ok {
+			return true
+		}
+		o, path, ok := t.selPath(se)
+		if !ok || !roots[o] {
+			return true
+		}
+		if _, isStruct := deref(t.typeOf(se)).Underlying().(*types.Struct); isStruct {
+			return true // an intermediate struct; the full path is visited by the parent
+		}
+		key := fmt.Sprintf("%p", o) + "." + strings.Join(path, ".")
+		if _, seen := t.paths[key]; !seen {
+			k := kindOf(t.typeOf(se))
+			nm := fmt.Sprintf("x%d", t.nparam)
+			t.nparam++
+			t.paths[key] = nm
+			*params = append(*params, fmt.Sprintf("(%s : %s)", nm, k.lean()))
+		}
+		return false
+	})
+}
+
+func translateFunc(repo string, sp spec, funcs map[string]string) string {
+	dir := filepath.Dir(filepath.Join(repo, sp.file))
+	p := loadPkg(dir)
+	f := p.files[filepath.Base(sp.file)]
+	if f == nil {
+		die("file not found (or excluded by build constraints)")
+	}
+	var decl *ast.FuncDecl
+	for _, d := range f.Decls {
+		fd, ok := d.(*ast.FuncDecl)
+		if !ok {
+			continue
+		}
+		name := fd.Name.Name
+		if fd.Recv != nil && len(fd.Recv.List) == 1 {
+			name = typeName(fd.Recv.List[0].Type) + "." + name
+		}
+		if name == sp.name {
+			decl = fd
+		}
+	}
+	if decl == nil {
+		die("function not found")
+	}
+	if decl.Body == nil || decl.Type.TypeParams != nil {
+		die("function without body / generic function")
+	}
+	t := &tr{p: p, names: map[types.Object]string{}, kinds: map[types.Object]*kind{}, paths: map[string]string{},
+		funcs: funcs, dir: filepath.Dir(sp.file)}
+	var params []string
+	roots := map[types.Object]bool{}
+	add := func(fl *ast.FieldList) {
+		if fl == nil {
+			return
+		}
+		for _, fld := range fl.List {
+			if len(fld.Names) == 0 {
+				die("unnamed parameter")
+			}
+			for _, id := range fld.Names {
+				if id.Name == "_" {
+					die("blank parameter")
+				}
+				o := p.info.Defs[id]
+				if o == nil || o.Type() == nil || o.Type() == types.Typ[types.Invalid] {
+					die("parameter %s has no valid type", id.Name)
+				}
+				t.addParam(o, &params)
+				if t.kinds[o].k == "Struct" && len(t.kinds[o].flds) == 0 {
+					roots[o] = true
+				}
+			}
+		}
+	}
+	if decl.Recv != nil && len(decl.Recv.List[0].Names) == 1 {
+		add(decl.Recv)
+	}
+	add(decl.Type.Params)
+	t.scanPaths(decl.Body, roots, &params)
+	if decl.Type.Results == nil {
+		die("no result")
+	}
+	var rty []string
+	pre, npre := "", 0
+	for _, fld := range decl.Type.Results.List {
+		tt := p.info.Types[fld.Type].Type
+		k := kindOf(tt)
+		if k.k == "List" {
+			die("result of type %s", k.lean())
+		}
+		cnt := len(fld.Names)
+		if cnt == 0 {
+			cnt = 1
+		}
+		for i := 0; i < cnt; i++ {
+			rty = append(rty, k.lean())
+			t.resK = append(t.resK, k)
+			if len(fld.Names) > 0 {
+				o := p.info.Defs[fld.Names[i]]
+				n := fmt.Sprintf("r%d", len(t.results))
+				t.names[o], t.kinds[o] = n, k
+				t.results = append(t.results, o)
+				pre += fmt.Sprintf("(let %s : %s := %s; ", n, k.lean(), k.zero())
+				npre++
+			} else {
+				t.results = append(t.results, nil)
+			}
+		}
+	}
+	bodyS := pre + t.body(decl.Body.List, "") + strings.Repeat(")", npre)
+	ps := strings.Join(params, " ")
+	if ps != "" {
+		ps = " " + ps
+	}
+	return fmt.Sprintf("\n/-- %s : %s (parameters in Go order) -/\ndef %s%s : %s :=\n  %s\n", sp.file, sp.name, sp.lean, ps, strings.Join(rty, " × "), bodyS)
+}
+
+func translateConst(repo string, sp spec) string {
+	dir := filepath.Dir(filepath.Join(repo, sp.file))
+	p := loadPkg(dir)
+	if p.pkg == nil {
+		die("package not type-checked")
+	}
+	c, ok := p.pkg.Scope().Lookup(sp.name).(*types.Const)
+	if !ok {
+		die("constant not found")
+	}
+	if c.Val() == nil || c.Val().Kind() == constant.Unknown {
+		die("constant has no known value")
+	}
+	// the constant must be declared in the named file (a moved constant is still found: only the
+	// package matters), so no position check here.
+	k := kindOf(c.Type())
+	out := fmt.Sprintf("\n/-- %s : const %s -/\ndef %s : %s := %s\n", filepath.Dir(sp.file), sp.name, sp.lean, k.lean(), constLean(c.Val(), k))
+	if k.k == "String" {
+		var cs []string
+		for _, r := range constant.StringVal(c.Val()) {
+			cs = append(cs, leanChar(r))
+		}
+		out += fmt.Sprintf("/-- the same constant as a character list -/\ndef %s_chars : List Char := [%s]\n", sp.lean, strings.Join(cs, ", "))
+	}
+	return out
+}
+
 func main() {
-	if len(os.Args) < 3 {
-		die("usage: go2lean <repo> <file>:<func>[:<leanName>]...")
+	if len(os.Args) < 6 || os.Args[1] != "-out" {
+		fmt.Fprintln(os.Stderr, "usage: go2lean -out <dir> <repo> @<Area> <file>:<func>[:<leanName>]...")
+		os.Exit(2)
 	}
-	repo := os.Args[1]
-	fmt.Println("/- GENERATED by tools/go2lean from the Go sources under /repo on every run of the checks")
-	fmt.Println("   that use it; do not edit.  Semantics: unbounded Int, Go truncated division. -/")
-	fmt.Println("namespace SV.Gen")
-	for _, spec := range os.Args[2:] {
-		parts := strings.Split(spec, ":")
-		file, fn := parts[0], parts[1]
-		lean := strings.ReplaceAll(fn, ".", "_")
+	outDir, repo := os.Args[2], os.Args[3]
+	type area struct {
+		name  string
+		specs []spec
+	}
+	var areas []*area
+	for _, a := range os.Args[4:] {
+		if strings.HasPrefix(a, "@") {
+			areas = append(areas, &area{name: a[1:]})
+			continue
+		}
+		if len(areas) == 0 {
+			fmt.Fprintln(os.Stderr, "go2lean: spec before @Area")
+			os.Exit(2)
+		}
+		parts := strings.Split(a, ":")
+		if len(parts) < 2 {
+			fmt.Fprintln(os.Stderr, "go2lean: bad spec "+a)
+			os.Exit(2)
+		}
+		sp := spec{raw: a, file: parts[0], name: parts[1]}
+		if strings.HasPrefix(sp.name, "=") {
+			sp.isConst, sp.name = true, sp.name[1:]
+		}
+		sp.lean = strings.ReplaceAll(sp.name, ".", "_")
 		if len(parts) > 2 {
-			lean = parts[2]
+			sp.lean = parts[2]
 		}
-		fset := token.NewFileSet()
-		f, err := parser.ParseFile(fset, filepath.Join(repo, file), nil, 0)
-		if err != nil {
-			die("%v", err)
-		}
-		var decl *ast.FuncDecl
-		for _, d := range f.Decls {
-			fd, ok := d.(*ast.FuncDecl)
-			if !ok {
-				continue
-			}
-			name := fd.Name.Name
-			if fd.Recv != nil && len(fd.Recv.List) == 1 {
-				name = typeName(fd.Recv.List[0].Type) + "." + name
-			}
-			if name == fn {
-				decl = fd
-			}
-		}
-		if decl == nil {
-			die("%s: function %s not found", file, fn)
-		}
-		t := &tr{fields: map[string]bool{}, isBool: map[string]bool{}}
-		var params []string
-		if decl.Recv != nil {
-			r := decl.Recv.List[0]
-			if len(r.Names) == 1 {
-				t.recv = r.Names[0].Name
-			}
-			// fields of the receiver struct, in declaration order
-			for _, d := range f.Decls {
-				gd, ok := d.(*ast.GenDecl)
-				if !ok {
-					continue
-				}
-				for _, sp := range gd.Specs {
-					ts, ok := sp.(*ast.TypeSpec)
-					if !ok || ts.Name.Name != typeName(r.Type) {
-						continue
-					}
-					st, ok := ts.Type.(*ast.StructType)
-					if !ok {
-						die("receiver %s is not a struct", ts.Name.Name)
-					}
-					for _, fl := range st.Fields.List {
-						if typeName(fl.Type) != "int64" {
-							die("receiver field of type %s", typeName(fl.Type))
-						}
-						for _, n := range fl.Names {
-							params = append(params, t.recv+"_"+n.Name)
-						}
-					}
-				}
-			}
-		}
-		for _, p := range decl.Type.Params.List {
-			if typeName(p.Type) != "int64" {
-				die("%s: parameter type %s unsupported", fn, typeName(p.Type))
-			}
-			for _, n := range p.Names {
-				params = append(params, n.Name)
-			}
-		}
-		if decl.Type.Results == nil || len(decl.Type.Results.List) != 1 {
-			die("%s: need one result", fn)
-		}
-		rt := typeName(decl.Type.Results.List[0].Type)
-		if rt != "int64" && rt != "bool" {
-			die("%s: result type %s unsupported", fn, rt)
-		}
-		t.ren = map[string]string{}
-		var lp []string
-		for i, n := range params {
-			t.ren[n] = fmt.Sprintf("x%d", i)
-			lp = append(lp, t.ren[n])
-		}
-		body := t.body(decl.Body.List, rt == "bool")
-		leanT := "Int"
-		if rt == "bool" {
-			leanT = "Bool"
-		}
-		fmt.Printf("\n/-- %s : %s (parameters in Go order) -/\ndef %s (%s : Int) : %s :=\n  %s\n", file, fn, lean, strings.Join(lp, " "), leanT, body)
+		areas[len(areas)-1].specs = append(areas[len(areas)-1].specs, sp)
 	}
-	fmt.Println("\nend SV.Gen")
+	failed := 0
+	for _, ar := range areas {
+		var b strings.Builder
+		b.WriteString("/- GENERATED by tools/go2lean from the Go sources under /repo on every run of the checks\n")
+		b.WriteString("   that use it; do not edit.  Semantics: signed integers = unbounded Int with Go's truncated\n")
+		b.WriteString("   division (overflow not modelled); unsigned integers = Nat reduced mod 2^w where an operation\n")
+		b.WriteString("   can overflow; constants are emitted as the values go/types computes. -/\n")
+		ns := "SV.Gen"
+		if ar.name != "Arith" { // the first area keeps the historical flat namespace
+			ns += "." + ar.name
+		}
+		b.WriteString("namespace " + ns + "\n")
+		funcs := map[string]string{}
+		for _, sp := range ar.specs {
+			out := ""
+			func() {
+				defer func() {
+					if r := recover(); r != nil {
+						e, ok := r.(trErr)
+						if !ok {
+							panic(r)
+						}
+						failed++
+						fmt.Fprintf(os.Stderr, "go2lean: %s: %s\n", sp.raw, e.msg)
+						out = fmt.Sprintf("\n-- NOT TRANSLATED: %s : %s (see the check log)\n", sp.file, sp.name)
+					}
+				}()
+				if sp.isConst {
+					out = translateConst(repo, sp)
+				} else {
+					out = translateFunc(repo, sp, funcs)
+					funcs[filepath.Dir(sp.file)+":"+sp.name] = sp.lean
+				}
+			}()
+			b.WriteString(out)
+		}
+		b.WriteString("\nend " + ns + "\n")
+		if err := os.WriteFile(filepath.Join(outDir, ar.name+".lean"), []byte(b.String()), 0o644); err != nil {
+			fmt.Fprintln(os.Stderr, "go2lean:", err)
+			os.Exit(2)
+		}
+	}
+	if failed > 0 {
+		os.Exit(1)
+	}
 }
